@@ -65,7 +65,7 @@ func c08(c *ctx) {
 		{[]string{`import "strconv"`, `import "io"`, `import "slices"`}, " E strconv.NumError\n W io.Writer"},
 		{[]string{`import z "unicode/utf8"`, `import a "unicode"`}, " R [z.UTFMax]byte\n T *a.RangeTable"},
 	}
-	actions := []string{"p.N++", "p.N = (p.N + 5) % 7", "_ = fmt.Sprintf(\"%s/%d%%\", \"a\", p.N)", "/* a comment */ p.N++", "// a line comment\n p.N++", "s := \"*/\"; _ = s", "if true { p.N++ }", "r := `{}`; _ = r", "p.N += len(\"\\\"{}\")", "func() { p.N++ }()", ""}
+	actions := []string{"p.N++", "v := p.N; p.N = v + 1", "v := 2; p.N += v", "p.N = (p.N + 5) % 7", "_ = fmt.Sprintf(\"%s/%d%%\", \"a\", p.N)", "/* a comment */ p.N++", "// a line comment\n p.N++", "s := \"*/\"; _ = s", "if true { p.N++ }", "r := `{}`; _ = r", "p.N += len(\"\\\"{}\")", "func() { p.N++ }()", ""}
 	preds := []string{"true", "p.N >= 0 /* {} */", "len(\"*/\") == 2", "func() bool { return true }()", "!false && (true)"}
 	for i := 0; i < n; i++ {
 		var g *gram.Grammar
